@@ -354,6 +354,12 @@ func c10run(out *rec.Out, c c10case, stats map[string]int) {
 	if find(hostTask) != nil {
 		hostPending = 1
 	}
-	out.Line("obs final complete=%d hostpending=%d", rec.B(complete), hostPending)
+	left := 0
+	for _, r := range in.Pending() {
+		if r.Node != hostTask {
+			left++
+		}
+	}
+	out.Line("obs final complete=%d hostpending=%d pending=%d", rec.B(complete), hostPending, left)
 	in.Stop(2 * timeSecond)
 }
